@@ -6,6 +6,7 @@ Driver of the C01 crash machine. One request line, one response line.
   reset <nIdx>                     fresh, created + flushed collection with <nIdx> indexes
   add <body> <keys>                keys = "ix:key,ix:key" | "-"      → ok <id> | err:…
   update <id> <body> <patch>       patch = "ix=k/k,ix=" | "-"        → ok | err:…
+  compact <ix> <0|1> <0|1>         index compaction; flushes itself (the merge shrank the index) / only rebuilt the buckets (pending flush)
   saveext <n>                      save_extension (metadata-only write) → ok | err:…
   remove <id>                                                        → ok none | ok doc <body> <keys> | err:…
   flush <now> | close <now> | reopen <now>                           → ok true|false / ok / err:…
@@ -98,6 +99,9 @@ def handle (s : State) (line : String) : State × String :=
     | some id, some b, some p => doStep s (.update id { body := b, repl := p })
     | _, _, _ => (s, "err:parse")
   | ["saveext", _] => doStep s .saveExt
+  | ["compact", ix, c, d] => match ix.toNat? with
+    | some ix => doStep s (.compact ix (c == "1") (d == "1"))
+    | none => (s, "err:parse")
   | ["remove", id] => match id.toNat? with
     | some id => doStep s (.remove id)
     | none => (s, "err:parse")
